@@ -4,7 +4,13 @@ references to a list object taken before a block and read after the program.  Th
 language (Model/Branching.lean: `TVal`); they are compared with the model (V+S+W), checked against the native twin, for
 satisfaction/coherence, and for independence of the constraint system from the inputs.  `ref` statements (a second name
 for a list object, read after the program) have no counterpart in the model, which ignores them: the model has value
-semantics for lists, and the generator never updates in place a list object that is reachable under two names."""
+semantics for lists, and the generator never updates in place a list object that is reachable under two names.
+
+List lengths: the typed stream keeps every list at its length (two elements, two rows).  `gen_lenchange` is the scenario class
+for the other case: a program that ends with one statement in which `if_then_else` meets two lists of DIFFERENT lengths (a block /
+loop round / later arm / nested block that rebinds a tracked list or replaces a row, a selection on values or on lazily evaluated
+branches).  Native Python rebinds; the library must REFUSE (ValueError before anything is merged: repaired finding
+C09-list-length-truncated; the model raises `Err.value` at the same point, `C09_length_mismatch_refused`)."""
 import json
 
 CMPS = ["lt", "le", "eq", "ne", "gt", "ge"]
@@ -256,6 +262,106 @@ def reroll(prog, rnd):
         kd = q.get("kinds", {}).get(k, "int")
         q["init"][k] = init_value(rnd, kd)
     return q
+
+
+LEN_FORMS = ["if", "if-else", "in-else", "in-elif", "for", "while", "if-in-if", "if-in-for", "for-in-if", "sel", "sel-swapped", "ite", "ite-swapped",
+             "row", "row-in-for", "rows", "alias", "mat-sel"]
+
+
+def gen_lenchange(rnd, form=None):
+    """a (short) typed program followed by ONE statement that makes `if_then_else` meet two lists of different lengths, after which
+    the program ends: the oblivious version must raise ValueError whichever way the conditions go (the merge is made either way),
+    the native twin completes.  `feature` = list-length-change, `lenform` = the shape of the last statement."""
+    g = TG(rnd)
+    g.budget = rnd.randrange(0, 4)
+    p = g.prog()
+    form = form or rnd.choice(LEN_FORMS)
+    body = p["body"]
+    r = rnd
+
+    def fresh(kind, e):
+        """a new variable bound to the (already generated) expression; registered afterwards, so `e` can not mention it"""
+        x = g.new(kind)
+        body.append(["assign", x, e])
+        return x
+
+    def target(kind):
+        """an existing variable of that kind that is certainly one object under one name, or (half of the time) a new one"""
+        have = [v for v in g.of(kind) if v not in g.noset]
+        return r.choice(have) if have and r.random() < 0.5 else fresh(kind, g.expr_of(kind))
+
+    def other(lvs=(), n=None):
+        """a list literal whose length is not 2"""
+        n = r.choice([0, 1, 3, 3, 4]) if n is None else n
+        return ["list", [g.secret_int(lvs) for _ in range(n)]]
+
+    def noise(lvs=(), after=False):
+        """an unrelated integer assignment next to the rebinding (after it: no list is read, the target has its new length)"""
+        ints = g.of("int")
+        if not ints or r.random() >= 0.4:
+            return []
+        e = ["add", ["in", r.randrange(g.ninp)], ["var", r.choice(ints)]] if after else g.secret_int(lvs)
+        return [["assign", r.choice(ints), e]]
+
+    def arm(st, lvs=()):
+        return noise(lvs) + [st] + noise(lvs, after=True)
+
+    def samelen(x):
+        """a statement that keeps the list `x` at its length"""
+        return ["setitem", x, r.randrange(2), g.secret_int()] if x not in g.noset and r.random() < 0.5 else ["assign", x, g.list_expr()]
+
+    if form in ("row", "row-in-for", "rows", "mat-sel"):
+        M = target("mat")
+    else:
+        L = target("list")
+    if form in ("for", "while", "if-in-for", "for-in-if", "row-in-for"):
+        # a second round would read the target at its new length (natively an IndexError): the loop body does not read it
+        tv = M if form == "row-in-for" else L
+        g.kinds[tv] = "o" + g.kinds[tv]
+    c = g.cond()
+    if form == "if":
+        last = ["if", [[c, arm(["assign", L, other()])]], None]
+    elif form == "if-else":
+        last = ["if", [[c, arm(["assign", L, other()])]], arm(samelen(L))]
+    elif form == "in-else":
+        last = ["if", [[c, arm(samelen(L))]], arm(["assign", L, other()])]
+    elif form == "in-elif":
+        last = ["if", [[c, arm(samelen(L))], [g.cond(), arm(["assign", L, other()])]], None if r.random() < 0.5 else arm(samelen(L))]
+    elif form == "for":
+        last = ["for", "i0", ["in", r.randrange(g.ninp)], r.randrange(1, 4), arm(["assign", L, other(("i0",))], ("i0",))]
+    elif form == "while":
+        last = ["while", c, r.randrange(1, 3), arm(["assign", L, other()]), g.cond() if r.random() < 0.4 else None]
+    elif form == "if-in-if":
+        last = ["if", [[c, noise() + [["if", [[g.cond(), arm(["assign", L, other()])]], None]]]], None if r.random() < 0.5 else arm(samelen(L))]
+    elif form == "if-in-for":
+        last = ["for", "i0", ["in", r.randrange(g.ninp)], r.randrange(1, 3), [["if", [[g.cond(("i0",)), arm(["assign", L, other(("i0",))], ("i0",))]], None]]]
+    elif form == "for-in-if":
+        last = ["if", [[c, [["for", "i0", ["in", r.randrange(g.ninp)], r.randrange(1, 3), arm(["assign", L, other(("i0",))], ("i0",))]]]], None]
+    elif form in ("sel", "sel-swapped"):
+        a, b = other(), ["copy", ["var", L]]
+        last = ["sel", g.new("olist"), c] + ([a, b] if form == "sel" else [b, a])
+    elif form in ("ite", "ite-swapped"):
+        a, b = other(), ["var", L]
+        last = ["ite", g.new("olist"), c] + ([a, b] if form == "ite" else [b, a])
+    elif form == "row":
+        last = ["if", [[c, arm(["setitem", M, r.randrange(2), other()])]], None]
+    elif form == "row-in-for":
+        last = ["for", "i0", ["in", r.randrange(g.ninp)], r.randrange(1, 3), arm(["setitem", M, r.randrange(2), other(("i0",))], ("i0",))]
+    elif form == "rows":
+        last = ["if", [[c, arm(["assign", M, ["list", [g.list_expr() for _ in range(r.choice([1, 3]))]]])]], None]
+    elif form == "mat-sel":
+        # two rows each; one ROW of the first operand has another length
+        a = ["list", [g.list_expr(), other()] if r.random() < 0.5 else [other(), g.list_expr()]]
+        last = ["sel", g.new("omat"), c, a, ["copy", ["var", M]]]
+    elif form == "alias":
+        # `_.l = _.k` inside the block, `k` a tracked list of another length (kind `olist`: never indexed by later expressions)
+        K = fresh("olist", other())
+        last = ["if", [[c, arm(["assign", L, ["var", K]])]], None]
+    else:
+        raise ValueError(form)
+    body.append(last)
+    p.update({"stream": "lenchange", "feature": "list-length-change", "lenform": form})
+    return p
 
 
 # fixed programs: the shapes the three kinds are most often used in
